@@ -110,6 +110,14 @@ CLAIMS["C19"] = (
     "The replay-equals-typing clause, recording with events (FxHashSet / Vec with symbolic keys did not finish in the design phase), the size limit and the recursion guard are NOT decided. Partial claim.",
     "DESIGN.md C19")
 
+CLAIMS["C03"] = (
+    "Only the lexer: Lexer::next_token over every ASCII text of length <= 2 (quick) / <= 3 and <= 4 (thorough), whitespace and comments kept as tokens (the skipping mode, which only adds `continue`s around the same token code, did not finish and is parked): "
+    "never panics, every token is non-empty and ends inside the text, tokens tile the input (spans lie inside the file), it stops only at the end of the text and "
+    "terminates within one call per byte.",
+    "The tree builder, every sub-parser of the configuration language and diagnostic rendering are NOT decided: they work on heap data (Vec<SExpr>, Rc<str>, hash maps) "
+    "that CBMC does not get through, and any harness reaching parser::cfg::alloc::Allocations crashes the Kani compiler. Multi-byte characters are outside the harness. Partial claim for the lexer clause.",
+    "DESIGN.md C03")
+
 NOT_APPLICABLE = {
     "C15": "live reload is file I/O + the whole parser on two configurations + TCP notifications + a relational comparison of two whole executions; no bounded kernel of it can be encoded for CBMC (DESIGN.md 'Not applicable')",
     "C16": "a relation between two complete parses of two program texts; the parser (heap, Rc<str>, hash maps) cannot be executed symbolically within reach (measured: sexpr::parse on 4 symbolic bytes does not finish in 25 min) and running it on concrete rewritten texts would be testing, not solver-based checking",
